@@ -85,6 +85,31 @@ pub fn rrss_bin() -> PathBuf {
     )
 }
 
+/// The clock seam of the process world: environment that makes the child
+/// read its clocks through the preloaded shim (sim/clockshim). The wall clock
+/// is `offset_s` away from the real one and every reading of any clock moves
+/// time forward by `step_ms`, so seconds and minutes pass within one run.
+/// Empty if the shim could not be built (the world then runs unskewed).
+pub fn clock_env(offset_s: i64, step_ms: u64) -> Vec<(String, String)> {
+    let shim = crate::driver::verif_dir().join("target").join("clockshim.so");
+    if !shim.exists() {
+        return Vec::new();
+    }
+    vec![
+        ("LD_PRELOAD".to_string(), shim.to_string_lossy().into_owned()),
+        ("RRSS_VERIF_CLOCK_OFFSET_S".to_string(), offset_s.to_string()),
+        ("RRSS_VERIF_CLOCK_STEP_MS".to_string(), step_ms.to_string()),
+    ]
+}
+
+/// A skew derived from a hash (for callers without a choice tape): up to
+/// about +-30 years, 0.7 to 90 s per reading.
+pub fn clock_env_for(h: u64) -> Vec<(String, String)> {
+    let offset = (h % 2_000_000_000) as i64 - 1_000_000_000;
+    let step = [700u64, 1500, 2500, 61_000, 90_000][(h >> 32) as usize % 5];
+    clock_env(offset, step)
+}
+
 static DIR_COUNTER: AtomicU64 = AtomicU64::new(0);
 
 /// Held around every spawn, and by a peer for the short time between closing
